@@ -23,7 +23,8 @@ RULE = ("(candidate set, alternative winner, assertion set) triples: n = 2..5 (6
 REQUIRED = ["trees_built", "trees_with_unpruned_leaf", "trees_fully_pruned", "pruned_nodes_tag_checked", "marker_checked",
             "parse_checked", "set:raire", "set:raire_minus_one", "set:random", "set:redundant", "set:inconsistent", "set:empty", "parse_multi_contest_logs",
             "rendered_tags_checked", "rendered_tags_checked:node_pruned_by_both_kinds",
-            "parse_eliminated_set_names_an_id_outside_the_candidate_list", "eliminated_sets_given_as_frozensets"]
+            "parse_eliminated_set_names_an_id_outside_the_candidate_list", "eliminated_sets_given_as_frozensets",
+            "sets_with_a_vacuous_assertion_whose_candidate_is_in_its_own_eliminated_set"]
 ASSUMPTIONS = ["tag comparison is by assertion content (the module identifies an assertion by list.index, which maps exact "
                "duplicates to one index)"]
 N_CASES = {"quick": 128000, "thorough": 1024000}
@@ -45,6 +46,8 @@ def random_tuples(rng, cands, k):
             c = rng.choice(cands)
             rest = [x for x in cands if x != c]
             E = rng.sample(rest, rng.randint(0, len(rest) - 1))
+            if rng.random() < 0.15:
+                E = E + [c]   # vacuous: "c is not eliminated next once E (which contains c) is gone" contradicts no order
             el.append([c, sorted(E), rng.random() < 0.5])
     return wo, el
 
@@ -169,6 +172,8 @@ def run_case(case, rec):
         # records that went through a set() (de-duplication) hold their eliminated sets as frozensets: same sets
         el = [(c, frozenset(E), p) for c, E, p in el]
         rec.count("eliminated_sets_given_as_frozensets")
+    if any(c in E for c, E, _p in el):
+        rec.count("sets_with_a_vacuous_assertion_whose_candidate_is_in_its_own_eliminated_set")
     S = set(cands) - {root}
     sink = io.StringIO()
     with contextlib.redirect_stdout(sink), warnings.catch_warnings():
